@@ -170,6 +170,24 @@ class SourceFile:
         return parse_items(self.src, self.toks, item.body_open + 1, item.t1)
 
 
+def _strip_impl_generics(header):
+    """`impl<'a, I: Iterator<Item = X>> T<'a, I>` -> `T<'a, I>` (angle brackets matched, not a regex)."""
+    h = header.strip()
+    if not h.startswith('impl'):
+        return h
+    h = h[4:].lstrip()
+    if h.startswith('<'):
+        depth = 0
+        for k, ch in enumerate(h):
+            if ch == '<':
+                depth += 1
+            elif ch == '>':
+                depth -= 1
+                if depth == 0:
+                    return h[k + 1:].strip()
+    return h
+
+
 def _squash(s):
     return re.sub(r'[\s"]', '', s)
 
@@ -1300,7 +1318,7 @@ class Extractor:
                     if impl_ctx and not fs.file:
                         sf, imp, header = impl_ctx
                         items = sf.inner_items(imp)
-                        qual = '%s::%s' % (re.sub(r'^impl(\s*<[^>]*>)?\s*', '', header), fs.name)
+                        qual = '%s::%s' % (_strip_impl_generics(header), fs.name)
                     else:
                         if not fs.file:
                             raise Undecided('free fn %s needs FILE ::' % fs.name)
